@@ -68,7 +68,7 @@ Init == t \in Universe /\ emitted = FALSE
 First == CHOOSE u \in Universe : TRUE
 Emit == /\ ~emitted /\ t = First /\ emitted' = TRUE /\ UNCHANGED t
         /\ LET us == SetToSeq(Universe) IN
-           /\ ndJsonSerialize(IOEnv.VECTOR_FILE, [i \in 1..Len(us) |-> [t |-> us[i], ty |-> TypeOf(us[i], <<>>)]])
+           /\ ndJsonSerialize(IOEnv.VECTOR_FILE, [i \in 1..Len(us) |-> [t |-> us[i], ty |-> TypeOf(us[i], <<>>), must |-> us[i] \in Cond \cup BetaAbs]])
            /\ PrintT(<<"terms", Len(us), "base", Cardinality(Base), "rule redex", Cardinality({ u \in Universe : HasRule(u) }),
                        "rule under binder", Cardinality({ u \in Universe : HasRuleUnderAbs(u) }),
                        "eta at top", Cardinality({ u \in Universe : EtaTop(u) }), "beta at top", Cardinality({ u \in Universe : BetaTop(u) }),
